@@ -25,6 +25,7 @@ import (
 type LRecip struct {
 	Native  *world.Key `json:"native,omitempty"`  // real recipient (x, e, r: no labels; s: random label)
 	Variant string     `json:"variant,omitempty"` // sim-owned: "plain" (Recipient only), "nil", "empty", "list"; "plugin": a real plugin.Recipient talking to a scripted plugin (labels sent as a labels stanza)
+	ViaID   bool       `json:"via_id,omitempty"`  // plugin: the recipient is plugin.NewIdentity(...).Recipient() (encrypting to a plugin identity)
 	Script  string     `json:"script,omitempty"`  // plugin: "ok" | "stanza+error" | "error+stanza" | "error" | "dies" (what the plugin answers)
 	Labels  []string   `json:"labels,omitempty"`  // order as returned
 	Fail    bool       `json:"fail,omitempty"`    // injected wrap failure
@@ -170,7 +171,7 @@ func (C11) Meta() core.Meta {
 		Real:        []string{"filippo.io/age Encrypt (label comparison, wrap loop, header marshal)", "native recipients", "plugin.Recipient (client side of the plugin protocol)"},
 		Stub:        []string{"sim-owned recipients with chosen label lists / injected wrap failure", "destination (write-call counter)", "crypto/rand.Reader (tape)"},
 		FaultKinds:  []string{"fault.wrap_failure", "fault.csprng_read_fails_once"},
-		Probes:      []string{"probe.equal_sets_different_order", "probe.proper_subset", "probe.disjoint", "probe.empty_vs_absent", "probe.scrypt_with_other", "probe.two_scrypt", "probe.refused_labels", "probe.refused_wrap_failure", "probe.accepted", "probe.fail_at_last_position", "probe.differ_at_last_position", "probe.repeated_label_same_multiset", "probe.repeated_label_sets_differ", "probe.repeated_label_ambiguous", "probe.refused_after_more_than_4KiB_of_header", "probe.labels_with_space_or_empty", "probe.plugin_recipient"},
+		Probes:      []string{"probe.equal_sets_different_order", "probe.proper_subset", "probe.disjoint", "probe.empty_vs_absent", "probe.scrypt_with_other", "probe.two_scrypt", "probe.refused_labels", "probe.refused_wrap_failure", "probe.accepted", "probe.fail_at_last_position", "probe.differ_at_last_position", "probe.repeated_label_same_multiset", "probe.repeated_label_sets_differ", "probe.repeated_label_ambiguous", "probe.refused_after_more_than_4KiB_of_header", "probe.labels_with_space_or_empty", "probe.plugin_recipient", "probe.plugin_recipient_from_identity"},
 	}
 }
 
@@ -314,7 +315,7 @@ func (C11) Generate(r *core.RNG, tier string, idx uint64) interface{} {
 			}
 		}
 		if p.Recips[at].Native == nil && (p.Recips[at].Variant != "list" || ls != nil) && !p.Recips[at].Fail {
-			p.Recips[at] = LRecip{Variant: "plugin", Labels: ls, XKey: r.Intn(world.NX25519), Script: []string{"ok", "ok", "ok", "stanza+error", "error+stanza", "error", "dies"}[r.Intn(7)]}
+			p.Recips[at] = LRecip{Variant: "plugin", Labels: ls, XKey: r.Intn(world.NX25519), Script: []string{"ok", "ok", "ok", "stanza+error", "error+stanza", "error", "dies"}[r.Intn(7)], ViaID: r.Chance(1, 3)}
 		}
 	}
 	if r.Chance(1, 8) {
@@ -398,9 +399,20 @@ func (e C11) Execute(plan interface{}, c *core.Ctx) *core.Verdict {
 		case lr.Variant == "plugin":
 			sp := &simPlugin{script: lr.Script, labels: lr.Labels, inner: world.Recipient(world.Key{T: "x", K: lr.XKey % world.NX25519})}
 			plugins = append(plugins, sp)
-			pr, perr := plugin.NewRecipient(ref.Bech32Encode("age1simplug", []byte{byte(i), 1, 2, 3}), &plugin.ClientUI{})
-			if perr != nil {
-				return core.Fail("harness", "plugin.NewRecipient: %v", perr)
+			var pr *plugin.Recipient
+			if lr.ViaID {
+				pi, perr := plugin.NewIdentity(strings.ToUpper(ref.Bech32Encode("AGE-PLUGIN-SIMPLUG-", []byte{byte(i), 1, 2, 3})), &plugin.ClientUI{})
+				if perr != nil {
+					return core.Fail("harness", "plugin.NewIdentity: %v", perr)
+				}
+				pr = pi.Recipient()
+				c.Stats.Inc("probe.plugin_recipient_from_identity")
+			} else {
+				var perr error
+				pr, perr = plugin.NewRecipient(ref.Bech32Encode("age1simplug", []byte{byte(i), 1, 2, 3}), &plugin.ClientUI{})
+				if perr != nil {
+					return core.Fail("harness", "plugin.NewRecipient: %v", perr)
+				}
 			}
 			recips = append(recips, pr)
 			if len(lr.Labels) > 0 {
@@ -412,7 +424,7 @@ func (e C11) Execute(plan interface{}, c *core.Ctx) *core.Verdict {
 			if lr.Script != "ok" {
 				anyFail = true
 			}
-			skeleton += fmt.Sprintf("plugin:%s%v,", lr.Script, lr.Labels)
+			skeleton += fmt.Sprintf("plugin:%s%v%v,", lr.Script, lr.Labels, lr.ViaID)
 			c.Stats.Inc("probe.plugin_recipient")
 		default:
 			inner := world.Recipient(world.Key{T: "x", K: lr.XKey % world.NX25519})
